@@ -235,7 +235,9 @@ cdef class cyVariables:
         """
         for submap in iter_safe_relabels(mapping, self):
             for old, new in submap.items():
-                if old == new:
+                # like dict, test the hash first. Some labels, e.g. NumPy
+                # integers and tuples, do not compare to a bool
+                if hash(old) == hash(new) and old == new:
                     continue
 
                 if not self.count(old):
